@@ -280,6 +280,7 @@ func bSortedTextSet(ts []string) string {
 }
 
 func c01Gen(r *rng, n int, w *bufio.Writer) {
+	bReseed(r)
 	for i := 0; i < n; {
 		sc := c01BuildScenario(r)
 		if len(sc.nets) == 0 {
@@ -307,6 +308,7 @@ func c01Gen(r *rng, n int, w *bufio.Writer) {
 func init() { gens["c01.hash"] = c01HashGen }
 
 func c01HashGen(r *rng, n int, w *bufio.Writer) {
+	bReseed(r)
 	for k := 0; k < n; k++ {
 		var s string
 		switch r.n(4) {
